@@ -11,9 +11,13 @@ PROP = {
         "GunYu.Props.C19.txn_redirect_never_loses",
         "GunYu.Props.C19.txn_sequential_order",
         "GunYu.Props.C19.per_key_order_stmt_false",
+        "GunYu.Props.C19.txn_cluster_redirect_sent_once",
+        "GunYu.Props.C19.sender_sends_at_most_three",
     ],
     "expected_facts": {},
     "harness": [{"name": "C19", "pkg": "./pkg/redis/client/cluster/", "test": "TestVerifC19",
+                 "timeout_quick": "5m", "timeout_thorough": "30m"},
+                {"name": "C19out", "pkg": "./syncer/", "test": "TestVerifC19Out",
                  "timeout_quick": "5m", "timeout_thorough": "30m"}],
     "driver": "drv_C19",
     "rule": "scenarios: corpus (defect witnesses, adversarial ping-pong) then generated: 3-4 node cluster double (one node optionally "
@@ -26,7 +30,13 @@ PROP = {
             "scenario; the Lean driver replays it through ClusterRoute.step/tstep (membership) and prints per-node sequences and "
             "per-key executed subsequences, the harness prints them from the double's own logs. Independent Go monitor: "
             "execution at the key's holder, per-key increasing order per run segment, acknowledged batch complete, no double "
-            "execution in transactional mode. distinct_nontrivial = distinct traces containing at least one MOVED/ASK answer",
+            "execution in transactional mode. distinct_nontrivial = distinct traces containing at least one MOVED/ASK answer. "
+            "Session C19out (syncer/vf_c19_test.go): the real RedisOutput.sendAof/sendCmdsBatch with client.NewRedis(cluster config) against "
+            "the same double, transactional|plain x blocking|pipelined, BatchCmdCount 1-5, streams of 4-16 single-key commands, slots "
+            "assigned/migrating from a chosen request count on, transactional batches spanning two nodes (client-side CROSSSLOT); real time; "
+            "monitor on the double's execution log (no command twice in transactional mode, holder, per-key order and no gap, nothing lost "
+            "when the run ends without a target error); tie: re-sends of the failing batch and final error class vs the Lean decision table "
+            "ClusterSender.sendFunc",
     "trusted": [
         "Redis Cluster redirection rules as transcribed in Model/ClusterRoute.lean (answer, tanswer, applyMig) and in the cluster "
         "double vf_c19_double_test.go (getNodeByQuery: MOVED/ASK/ASKING/TRYAGAIN/CROSSSLOT, EXEC re-check over all queued keys, "
@@ -35,6 +45,8 @@ PROP = {
         "one mutex and that order is the trace",
     ],
     "assumptions": [
+        "sender retry/escalation (output.go sendFunc) is a hand transcription (Model/ClusterSender.lean), tied by correspondence of "
+        "(re-sends, final error) per mode and error class plus the execution-log monitor; not regenerated from the source",
         "model is protocol-level and hand-written; tied by trace membership (every observed run must be a run of the model, node "
         "answers recomputed by the model) on sampled interleavings - goroutine scheduling and socket timing are the runtime's",
         "QuietRun: no node queue that still holds an unfollowed redirect of a key starts serving that key again inside the batch "
